@@ -116,6 +116,12 @@ impl<E: Engine> RateEncoder<E> for HighRateEncoder<E> {
 // HighRateEncoder - PRIVATE
 
 impl<E: Engine> HighRateEncoder<E> {
+    /// Verification hook: the working space of this encoder.
+    #[cfg(feature = "verif-hooks")]
+    pub fn verif_work(&self) -> &EncoderWork {
+        &self.work
+    }
+
     fn reset_work(
         original_count: usize,
         recovery_count: usize,
@@ -283,6 +289,12 @@ impl<E: Engine> RateDecoder<E> for HighRateDecoder<E> {
 // HighRateDecoder - PRIVATE
 
 impl<E: Engine> HighRateDecoder<E> {
+    /// Verification hook: the working space of this decoder.
+    #[cfg(feature = "verif-hooks")]
+    pub fn verif_work(&self) -> &DecoderWork {
+        &self.work
+    }
+
     fn reset_work(
         original_count: usize,
         recovery_count: usize,
